@@ -343,9 +343,15 @@ func (x *exec) convert(fr *frame, s *State, v *Val, from, to types.Type, pos tok
 	case isFloat(from) && isFloat(to):
 		return x.mkVal(x.term(v), to)
 	case isStringType(from) && isSliceType(to):
-		// []byte(s): fresh backing store with unknown but fixed contents
+		// []byte(s): fresh backing store whose contents are a function of the string
 		ref := x.newRef(s, "s2b")
 		ln := App("str-len", x.term(v))
+		if sl, ok := to.Underlying().(*types.Slice); ok && isInt(sl.Elem()) {
+			es := x.c.SortOf(sl.Elem())
+			x.c.Fun("str-bytes", []string{"Str"}, fmt.Sprintf("(Array %s %s)", x.c.I(), es))
+			name, sortN := x.elemArr(sl.Elem())
+			x.h.set(s, name, sortN, Sto(x.h.get(s, name, sortN), ref, App("str-bytes", x.term(v))))
+		}
 		return x.mkVal(x.c.Let("sl", "Slice", fmt.Sprintf("(mk-slice %s %s %s %s)", ref, x.c.ILit(0), ln, ln)), to)
 	case isSliceType(from) && isStringType(to):
 		r := x.c.FreshConst("b2s", "Str")
